@@ -127,6 +127,9 @@ RENAMINGS = [
     lambda cs: {c: n for c, n in zip(cs, [' ', '  ', '   '])},                              # blank-ish
     lambda cs: {c: n for c, n in zip(cs, ['x' * 60, 'x' * 61, 'y' * 200])},                   # long
     lambda cs: {c: n for c, n in zip(cs, cs[1:] + cs[:1])},                                  # a cyclic permutation of the same names
+    lambda cs: {c: n for c, n in zip(cs, ['x', 'x-3', 'x-6'])},                              # a name + the text of a time = another name + another time
+    lambda cs: {c: n for c, n in zip(cs, ['LSZH-12', 'LSZH', 'LSZH-9'])},
+    lambda cs: {c: n for c, n in zip(cs, ['1', '1-1', '1-15'])},
     lambda cs: {c: n for c, n in zip(cs, ['nan', 'None', ''])} if len(cs) < 3 else {c: n for c, n in zip(cs, ['nan', 'None', 'NA'])},
 ]
 
